@@ -99,10 +99,9 @@ def framesWhole := framesWholeG true
 def noSOH (b : Bytes) : Bool := b.all (· ≠ 1)
 
 /-- split at the first SOH -/
-def splitSOH (b : Bytes) : Option (Bytes × Bytes) :=
-  match b.span (· ≠ 1) with
-  | (_, []) => none
-  | (a, _ :: r) => some (a, r)
+def splitSOH : Bytes → Option (Bytes × Bytes)
+  | [] => none
+  | x :: xs => if x = 1 then some ([], xs) else (splitSOH xs).map fun ar => (x :: ar.1, ar.2)
 
 def wfFrame (m : Bytes) : Bool :=
   match m with
@@ -130,10 +129,21 @@ def wfFrame (m : Bytes) : Bool :=
 /-- no BeginString marker -/
 def noBegin (j : Bytes) : Bool := (indexOf dBegin j).isNone
 
-/-- junk₀ m₁ junk₁ m₂ … (`true` = message) -/
-def concatParts (ps : List (Bool × Bytes)) : Bytes := (ps.map (·.2)).flatten
-def msgsOf (ps : List (Bool × Bytes)) : List Bytes := (ps.filter (·.1)).map (·.2)
-def partsOk (ps : List (Bool × Bytes)) : Bool := ps.all fun p => if p.1 then wfFrame p.2 else noBegin p.2
+/-- junk₀ m₁ junk₁ m₂ junk₂ … : the leading separator and every message with the separator that follows it -/
+structure Parts where
+  j0 : Bytes
+  ms : List (Bytes × Bytes)
+
+def Parts.stream (ps : Parts) : Bytes := ps.j0 ++ (ps.ms.map fun mj => mj.1 ++ mj.2).flatten
+def Parts.msgs (ps : Parts) : List Bytes := ps.ms.map (·.1)
+/-- every message a well-formed frame, every separator (as a whole) free of "8=" -/
+def Parts.ok (ps : Parts) : Bool := noBegin ps.j0 && ps.ms.all fun mj => wfFrame mj.1 && noBegin mj.2
+
+/-- tokens of a `parts` op (`true` = message): consecutive junk tokens form ONE separator -/
+def mkParts : List (Bool × Bytes) → Parts
+  | [] => ⟨[], []⟩
+  | (false, j) :: r => let p := mkParts r; { p with j0 := j ++ p.j0 }
+  | (true, m) :: r => let p := mkParts r; ⟨[], (m, p.j0) :: p.ms⟩
 
 /-! ## the monitor -/
 
@@ -143,7 +153,7 @@ def endClass : End → String
 
 structure MonState where
   stream : Bytes := []
-  parts : Option (List (Bool × Bytes)) := none    -- the decomposition claimed for the stream, once verified
+  parts : Option Parts := none                   -- the decomposition claimed for the stream, once verified (`Parts.ok`)
   ref : Option (List Bytes × String) := none      -- the first reading of this stream (frames, end class)
 
 /-- clauses violated by one observed reading (`frames`, `end_`) of the current stream.
@@ -167,7 +177,7 @@ def monRead (st : MonState) (opName : String) (viaLoop : Bool) (frames : List By
         else []
       | none => []
     let c3 := match st.parts with
-      | some ps => if frames ≠ msgsOf ps then ["c12_not_exactly_the_messages{op=" ++ opName ++ "}"] else []
+      | some ps => if frames ≠ ps.msgs then ["c12_not_exactly_the_messages{op=" ++ opName ++ "}"] else []
       | none => []
     c1 ++ c2 ++ c3
 
